@@ -26,3 +26,10 @@ prop('C03', technique='contract-based deductive verification of instruction typi
 prop('C07', technique='contract-based deductive verification: safety VCs (only Trapped/ZeroDivisionError escape an instruction)',
      explanation='safety halves of the instruction contracts and tick/_trap contracts',
      assumptions=['host signal delivery between bytecodes is an atomic flag write'], not_covered=['float **'])
+prop('C04', technique='contract-based deductive verification: loop invariants over symbolic declaration lists, nonlinear '
+                      'integer VCs for array addressing, frame conditions as obligations over recorded stores',
+     explanation='layout arithmetic (memlayout), array addressing/initialisation, reads of unset cells, stores, references and '
+                 'call frames proved against prefix-sum / row-major specifications for all values; disjointness as lemmas over the ensures',
+     assumptions=['identifiers cannot contain "_" (grammar), so STATIC names _static_<routine>_<name> cannot collide'],
+     not_covered=['record-typed parameters (frame slot vs. layout size)', 'generator side of argument passing is under C01/C03',
+                  'array rank > 3 and record arity > 4 in get_type_size'])
